@@ -1,7 +1,7 @@
 //vp:property C23
 //vp:pkg ./tsdb
 //vp:roots ./tsdb/record ./tsdb/encoding ./model/labels ./model/histogram ./tsdb/chunkenc ./tsdb/chunks ./tsdb/tombstones github.com/dennwc/varint
-//vp:bounds chunk-snapshot series record codec (memSeries.encodeToSnapshotRecord / decodeSeriesFromChunkSnapshot with record.EncodeLabels/DecodeLabels, EncodeHistogram/DecodeHistogram, chunkenc.FromData): arbitrary series ref, head-chunk time range and last float value (bits); head chunk none / XOR / XOR2 / Histogram / FloatHistogram with 2 header bytes + 0..3 arbitrary data bytes; a concrete 2-label set; last (float) histogram with small counts
+//vp:bounds chunk-snapshot series record codec (memSeries.encodeToSnapshotRecord / decodeSeriesFromChunkSnapshot with record.EncodeLabels/DecodeLabels, EncodeHistogram/DecodeHistogram, chunkenc.FromData): arbitrary series ref, head-chunk time range and last float value (bits); head chunk none / XOR / XOR2 / Histogram / FloatHistogram with 2 header bytes + 0..3 (thorough 0..8) arbitrary data bytes; a concrete 2-label set; last (float) histogram with small counts
 //vp:assume necessary condition only: what the snapshot stores for a series is what is read back; the property itself compares two whole-process recoveries (files, Head.Init) and is not decided
 package tsdb
 
@@ -23,7 +23,11 @@ func vpH_C23_snapshot_series_codec() {
 	var enc chunkenc.Encoding
 	if kind != 0 {
 		enc = []chunkenc.Encoding{0, chunkenc.EncXOR, chunkenc.EncXOR2, chunkenc.EncHistogram, chunkenc.EncFloatHistogram}[kind]
-		n := 2 + vpShape("databytes", 0, 3)
+		dbHi := 3
+		if vpThorough() {
+			dbHi = 8
+		}
+		n := 2 + vpShape("databytes", 0, dbHi)
 		if enc == chunkenc.EncXOR2 {
 			n += 1 // XOR2 chunks carry a third header byte
 		}
